@@ -9,3 +9,4 @@ import QV.Properties.C06
 import QV.Properties.C20
 import QV.Properties.C21
 import QV.Properties.C22
+import QV.Properties.C17
